@@ -223,6 +223,10 @@ def condA : DTree → Expr
   | .node _ a _ _ _ => a
   | _ => .uninit .f64
 
+def condB : DTree → Expr
+  | .node _ _ b _ _ => b
+  | _ => .uninit .f64
+
 theorem dyad_inverse (x : Nat → ℝ) :
     ((D9 x 0).det = 0 → (f64.«Dyad::Inverse()»).tree.leafR x = some [.bool false]) ∧
     ((D9 x 0).det ≠ 0 →
@@ -255,6 +259,180 @@ theorem dyad_inverse (x : Nat → ℝ) :
       rw [← ht]
     · rw [hinv]
       exact Matrix.mul_nonsing_inv _ (isUnit_iff_ne_zero.mpr h)
+
+/-- The same for the symmetric dyad: `Inverse()` is absent exactly when the determinant is zero and is
+otherwise the inverse of the embedded symmetric matrix. -/
+theorem symmetric_inverse (x : Nat → ℝ) :
+    ((S6 x 0).det = 0 → (f64.«SymmetricDyad::Inverse()»).tree.leafR x = some [.bool false]) ∧
+    ((S6 x 0).det ≠ 0 →
+      (f64.«SymmetricDyad::Inverse()»).tree.leafR x =
+        some (.bool true :: inverseOuts (f64.«SymmetricDyad::Inverse()»).tree) ∧
+      matOfList (numsR x (inverseOuts (f64.«SymmetricDyad::Inverse()»).tree)) = (S6 x 0)⁻¹ ∧
+      S6 x 0 * matOfList (numsR x (inverseOuts (f64.«SymmetricDyad::Inverse()»).tree)) = 1) := by
+  have hdet : (S6 x 0).det = x 0 * (x 3 * x 5 - x 4 * x 4) + x 1 * (x 4 * x 2 - x 1 * x 5)
+      + x 2 * (x 1 * x 4 - x 3 * x 2) := by
+    simp [S6, Matrix.det_fin_three]; ring
+  have ht : (f64.«SymmetricDyad::Inverse()»).tree =
+      .node .ne (condA (f64.«SymmetricDyad::Inverse()»).tree) (.lit .f64 false 0 0)
+        (.leaf (.bool true :: inverseOuts (f64.«SymmetricDyad::Inverse()»).tree)) (.leaf [.bool false]) := rfl
+  have hc : (condA (f64.«SymmetricDyad::Inverse()»).tree).evalR x = (S6 x 0).det := by
+    rw [hdet]; simp [condA, f64.«SymmetricDyad::Inverse()», Expr.evalR, BinOp.evalR]
+  have hz : (Expr.lit .f64 false 0 0).evalR x = 0 := by simp [Expr.evalR, dyadicR]
+  constructor
+  · intro h
+    rw [ht]; simp [DTree.leafR, CmpOp.evalR, hc, hz, h]
+  · intro h
+    have hinv : matOfList (numsR x (inverseOuts (f64.«SymmetricDyad::Inverse()»).tree)) = (S6 x 0)⁻¹ := by
+      rw [Matrix.inv_def, Ring.inverse_eq_inv']
+      have h' := h
+      rw [hdet] at h' ⊢
+      simp [inverseOuts, f64.«SymmetricDyad::Inverse()», numsR, Out.evalR, Expr.evalR, BinOp.evalR, matOfList, S6,
+        Matrix.adjugate_fin_three_of]
+      (repeat' constructor) <;> (field_simp; try ring1)
+    refine ⟨?_, hinv, ?_⟩
+    · rw [ht]; simp [DTree.leafR, CmpOp.evalR, hc, hz, h]
+      rw [← ht]
+    · rw [hinv]
+      exact Matrix.mul_nonsing_inv _ (isUnit_iff_ne_zero.mpr h)
+
+/-! The same two theorems for the `float` and `long double` instantiations (whose trees differ: the
+`float` one compares the determinant with the `double` literal `0.0`). -/
+
+theorem dyad_inverse_f32 (x : Nat → ℝ) :
+    ((D9 x 0).det = 0 → (f32.«Dyad::Inverse()»).tree.leafR x = some [.bool false]) ∧
+    ((D9 x 0).det ≠ 0 →
+      (f32.«Dyad::Inverse()»).tree.leafR x =
+        some (.bool true :: inverseOuts (f32.«Dyad::Inverse()»).tree) ∧
+      matOfList (numsR x (inverseOuts (f32.«Dyad::Inverse()»).tree)) = (D9 x 0)⁻¹ ∧
+      D9 x 0 * matOfList (numsR x (inverseOuts (f32.«Dyad::Inverse()»).tree)) = 1) := by
+  have hdet : (D9 x 0).det = x 0 * (x 4 * x 8 - x 5 * x 7) + x 1 * (x 5 * x 6 - x 3 * x 8)
+      + x 2 * (x 3 * x 7 - x 4 * x 6) := by
+    simp [D9, Matrix.det_fin_three]; ring
+  have ht : (f32.«Dyad::Inverse()»).tree =
+      .node .ne (condA (f32.«Dyad::Inverse()»).tree) (condB (f32.«Dyad::Inverse()»).tree)
+        (.leaf (.bool true :: inverseOuts (f32.«Dyad::Inverse()»).tree)) (.leaf [.bool false]) := rfl
+  have hc : (condA (f32.«Dyad::Inverse()»).tree).evalR x = (D9 x 0).det := by
+    rw [hdet]; simp [condA, f32.«Dyad::Inverse()», Expr.evalR, BinOp.evalR]
+  have hz : (condB (f32.«Dyad::Inverse()»).tree).evalR x = 0 := by simp [condB, f32.«Dyad::Inverse()», Expr.evalR, dyadicR]
+  constructor
+  · intro h
+    rw [ht]; simp [DTree.leafR, CmpOp.evalR, hc, hz, h]
+  · intro h
+    have hinv : matOfList (numsR x (inverseOuts (f32.«Dyad::Inverse()»).tree)) = (D9 x 0)⁻¹ := by
+      rw [Matrix.inv_def, Ring.inverse_eq_inv']
+      have h' := h
+      rw [hdet] at h' ⊢
+      simp [inverseOuts, f32.«Dyad::Inverse()», numsR, Out.evalR, Expr.evalR, BinOp.evalR, matOfList, D9,
+        Matrix.adjugate_fin_three_of]
+      (repeat' constructor) <;> (field_simp; try ring1)
+    refine ⟨?_, hinv, ?_⟩
+    · rw [ht]; simp [DTree.leafR, CmpOp.evalR, hc, hz, h]
+      rw [← ht]
+    · rw [hinv]
+      exact Matrix.mul_nonsing_inv _ (isUnit_iff_ne_zero.mpr h)
+
+
+theorem symmetric_inverse_f32 (x : Nat → ℝ) :
+    ((S6 x 0).det = 0 → (f32.«SymmetricDyad::Inverse()»).tree.leafR x = some [.bool false]) ∧
+    ((S6 x 0).det ≠ 0 →
+      (f32.«SymmetricDyad::Inverse()»).tree.leafR x =
+        some (.bool true :: inverseOuts (f32.«SymmetricDyad::Inverse()»).tree) ∧
+      matOfList (numsR x (inverseOuts (f32.«SymmetricDyad::Inverse()»).tree)) = (S6 x 0)⁻¹ ∧
+      S6 x 0 * matOfList (numsR x (inverseOuts (f32.«SymmetricDyad::Inverse()»).tree)) = 1) := by
+  have hdet : (S6 x 0).det = x 0 * (x 3 * x 5 - x 4 * x 4) + x 1 * (x 4 * x 2 - x 1 * x 5)
+      + x 2 * (x 1 * x 4 - x 3 * x 2) := by
+    simp [S6, Matrix.det_fin_three]; ring
+  have ht : (f32.«SymmetricDyad::Inverse()»).tree =
+      .node .ne (condA (f32.«SymmetricDyad::Inverse()»).tree) (condB (f32.«SymmetricDyad::Inverse()»).tree)
+        (.leaf (.bool true :: inverseOuts (f32.«SymmetricDyad::Inverse()»).tree)) (.leaf [.bool false]) := rfl
+  have hc : (condA (f32.«SymmetricDyad::Inverse()»).tree).evalR x = (S6 x 0).det := by
+    rw [hdet]; simp [condA, f32.«SymmetricDyad::Inverse()», Expr.evalR, BinOp.evalR]
+  have hz : (condB (f32.«SymmetricDyad::Inverse()»).tree).evalR x = 0 := by simp [condB, f32.«SymmetricDyad::Inverse()», Expr.evalR, dyadicR]
+  constructor
+  · intro h
+    rw [ht]; simp [DTree.leafR, CmpOp.evalR, hc, hz, h]
+  · intro h
+    have hinv : matOfList (numsR x (inverseOuts (f32.«SymmetricDyad::Inverse()»).tree)) = (S6 x 0)⁻¹ := by
+      rw [Matrix.inv_def, Ring.inverse_eq_inv']
+      have h' := h
+      rw [hdet] at h' ⊢
+      simp [inverseOuts, f32.«SymmetricDyad::Inverse()», numsR, Out.evalR, Expr.evalR, BinOp.evalR, matOfList, S6,
+        Matrix.adjugate_fin_three_of]
+      (repeat' constructor) <;> (field_simp; try ring1)
+    refine ⟨?_, hinv, ?_⟩
+    · rw [ht]; simp [DTree.leafR, CmpOp.evalR, hc, hz, h]
+      rw [← ht]
+    · rw [hinv]
+      exact Matrix.mul_nonsing_inv _ (isUnit_iff_ne_zero.mpr h)
+
+
+theorem dyad_inverse_f80 (x : Nat → ℝ) :
+    ((D9 x 0).det = 0 → (f80.«Dyad::Inverse()»).tree.leafR x = some [.bool false]) ∧
+    ((D9 x 0).det ≠ 0 →
+      (f80.«Dyad::Inverse()»).tree.leafR x =
+        some (.bool true :: inverseOuts (f80.«Dyad::Inverse()»).tree) ∧
+      matOfList (numsR x (inverseOuts (f80.«Dyad::Inverse()»).tree)) = (D9 x 0)⁻¹ ∧
+      D9 x 0 * matOfList (numsR x (inverseOuts (f80.«Dyad::Inverse()»).tree)) = 1) := by
+  have hdet : (D9 x 0).det = x 0 * (x 4 * x 8 - x 5 * x 7) + x 1 * (x 5 * x 6 - x 3 * x 8)
+      + x 2 * (x 3 * x 7 - x 4 * x 6) := by
+    simp [D9, Matrix.det_fin_three]; ring
+  have ht : (f80.«Dyad::Inverse()»).tree =
+      .node .ne (condA (f80.«Dyad::Inverse()»).tree) (condB (f80.«Dyad::Inverse()»).tree)
+        (.leaf (.bool true :: inverseOuts (f80.«Dyad::Inverse()»).tree)) (.leaf [.bool false]) := rfl
+  have hc : (condA (f80.«Dyad::Inverse()»).tree).evalR x = (D9 x 0).det := by
+    rw [hdet]; simp [condA, f80.«Dyad::Inverse()», Expr.evalR, BinOp.evalR]
+  have hz : (condB (f80.«Dyad::Inverse()»).tree).evalR x = 0 := by simp [condB, f80.«Dyad::Inverse()», Expr.evalR, dyadicR]
+  constructor
+  · intro h
+    rw [ht]; simp [DTree.leafR, CmpOp.evalR, hc, hz, h]
+  · intro h
+    have hinv : matOfList (numsR x (inverseOuts (f80.«Dyad::Inverse()»).tree)) = (D9 x 0)⁻¹ := by
+      rw [Matrix.inv_def, Ring.inverse_eq_inv']
+      have h' := h
+      rw [hdet] at h' ⊢
+      simp [inverseOuts, f80.«Dyad::Inverse()», numsR, Out.evalR, Expr.evalR, BinOp.evalR, matOfList, D9,
+        Matrix.adjugate_fin_three_of]
+      (repeat' constructor) <;> (field_simp; try ring1)
+    refine ⟨?_, hinv, ?_⟩
+    · rw [ht]; simp [DTree.leafR, CmpOp.evalR, hc, hz, h]
+      rw [← ht]
+    · rw [hinv]
+      exact Matrix.mul_nonsing_inv _ (isUnit_iff_ne_zero.mpr h)
+
+
+theorem symmetric_inverse_f80 (x : Nat → ℝ) :
+    ((S6 x 0).det = 0 → (f80.«SymmetricDyad::Inverse()»).tree.leafR x = some [.bool false]) ∧
+    ((S6 x 0).det ≠ 0 →
+      (f80.«SymmetricDyad::Inverse()»).tree.leafR x =
+        some (.bool true :: inverseOuts (f80.«SymmetricDyad::Inverse()»).tree) ∧
+      matOfList (numsR x (inverseOuts (f80.«SymmetricDyad::Inverse()»).tree)) = (S6 x 0)⁻¹ ∧
+      S6 x 0 * matOfList (numsR x (inverseOuts (f80.«SymmetricDyad::Inverse()»).tree)) = 1) := by
+  have hdet : (S6 x 0).det = x 0 * (x 3 * x 5 - x 4 * x 4) + x 1 * (x 4 * x 2 - x 1 * x 5)
+      + x 2 * (x 1 * x 4 - x 3 * x 2) := by
+    simp [S6, Matrix.det_fin_three]; ring
+  have ht : (f80.«SymmetricDyad::Inverse()»).tree =
+      .node .ne (condA (f80.«SymmetricDyad::Inverse()»).tree) (condB (f80.«SymmetricDyad::Inverse()»).tree)
+        (.leaf (.bool true :: inverseOuts (f80.«SymmetricDyad::Inverse()»).tree)) (.leaf [.bool false]) := rfl
+  have hc : (condA (f80.«SymmetricDyad::Inverse()»).tree).evalR x = (S6 x 0).det := by
+    rw [hdet]; simp [condA, f80.«SymmetricDyad::Inverse()», Expr.evalR, BinOp.evalR]
+  have hz : (condB (f80.«SymmetricDyad::Inverse()»).tree).evalR x = 0 := by simp [condB, f80.«SymmetricDyad::Inverse()», Expr.evalR, dyadicR]
+  constructor
+  · intro h
+    rw [ht]; simp [DTree.leafR, CmpOp.evalR, hc, hz, h]
+  · intro h
+    have hinv : matOfList (numsR x (inverseOuts (f80.«SymmetricDyad::Inverse()»).tree)) = (S6 x 0)⁻¹ := by
+      rw [Matrix.inv_def, Ring.inverse_eq_inv']
+      have h' := h
+      rw [hdet] at h' ⊢
+      simp [inverseOuts, f80.«SymmetricDyad::Inverse()», numsR, Out.evalR, Expr.evalR, BinOp.evalR, matOfList, S6,
+        Matrix.adjugate_fin_three_of]
+      (repeat' constructor) <;> (field_simp; try ring1)
+    refine ⟨?_, hinv, ?_⟩
+    · rw [ht]; simp [DTree.leafR, CmpOp.evalR, hc, hz, h]
+      rw [← ht]
+    · rw [hinv]
+      exact Matrix.mul_nonsing_inv _ (isUnit_iff_ne_zero.mpr h)
+
 
 theorem dyad_is_symmetric (x : Nat → ℝ) :
     (f64.«Dyad::IsSymmetric()»).tree.leafR x =
